@@ -9,7 +9,7 @@ BASELINE_CMD = "cd /repo && /venv/bin/python -m pytest -ra -q -p no:cacheprovide
 CHECKS = {
  'C01': ('exploration', 1200, 7200,
          'deterministic simulation: real KWN model under a seeded configuration/solve-call schedule with a per-step observer and read-only taps; reference mass balance + freshness of the precipitate-composition table from the backend proxy call log',
-         'Every recorded step of every run is compared with a scalar reference balance built from the tapped inputs, the recorded row must be that evaluation, the composition table must be the latest backend answer for the current class boundaries, and the identity is re-evaluated on the live distribution with an explicitly explained slack.',
+         'Every recorded step of every run is compared with a scalar reference balance built from the tapped inputs, the recorded row must be that evaluation, the composition table must be the latest backend answer for the current class boundaries, and the identity is re-evaluated on the live distribution with an explicitly explained slack. Configurations include composition floors inside the visited range, all step-size constraints, aspect ratio 1 / radius-dependent aspect ratios and predecessor / sibling models in the same process.',
          'Fault-free runs only; clamp-active and fraction>=1 steps exempt (counted); reference uses kawin\'s own Avogadro constant for unit conversion; stub-backend runs say nothing about kawin.thermo (evidence counts real vs stub).',
          'DESIGN.md 4/C01'),
  'C02': ('exploration', 1200, 7200,
@@ -19,7 +19,7 @@ CHECKS = {
          'DESIGN.md 4/C02'),
  'C03': ('fault_enumeration', 1500, 7200,
          'deterministic simulation with fault injection: real KWN model behind a fault-injecting thermodynamics proxy; single-fault position enumeration per workload + seeded fault sequences + fault-free configuration swarm; well-formedness invariants every step',
-         'Every accepted step and every call history of every run is checked for alignment, finiteness, ranges, monotone time and exact end time; for fixed workloads every backend-call index receives a single "no result" fault and a burst of three; seeded sequences add mixed rates and bursts, real-backend runs exercise kawin.thermo\'s own fallback.',
+         'Every accepted step and every call history of every run is checked for alignment, finiteness, ranges, monotone time and exact end time; for fixed workloads every backend-call index receives a single "no result" fault and a burst of three; seeded sequences add mixed rates and bursts, real-backend runs exercise kawin.thermo\'s own fallback. Shapes include aspect ratio exactly 1 and radius-dependent aspect ratios.',
          'Faults are injected only after model.setup() (transient failures of a running model); binary "unstable" sentinels and driving-force failures are probed informationally only; conservation is not asserted under faults. Known findings: pycalphad ZeroDivisionError escaping local_equilibrium; total fraction > 1 when one phase is clamped at 1.',
          'DESIGN.md 4/C03'),
  'C04': ('exploration', 1200, 7200,
@@ -29,17 +29,17 @@ CHECKS = {
          'DESIGN.md 4/C04'),
  'C05': ('exploration', 900, 3600,
          'deterministic simulation: seeded adversarial plug-in models (dt proposals, stop requests, state layouts, coupler mixes) driving the real DESolver; contract oracle on the accepted-time history',
-         'Seeded search over adversarial model behaviour and solve-call schedules; every accepted time, step size, stop and callback state structure is checked against the stated contract. Sampling, not enumeration.',
+         'Seeded search over adversarial model behaviour and solve-call schedules; every accepted time, step size, stop and callback state structure is checked against the stated contract. Sampling, not enumeration. Couplers include sub-models with their own clock (solved before coupling) and a real precipitation + diffusion pair.',
          'Assumes minDtFrac*dt_total >= 8 ulp(t0+dt_total); step bounds compared with 4 ulp tolerance; plug-in returns derivatives in its own structure. Custom iterators that return their own dt are out of scope.',
          'DESIGN.md 4/C05'),
  'C06': ('exploration', 600, 3600,
          'deterministic simulation: closed-form ODE probe models stepped through the real solver under seeded step schedules; stage-time history + measured convergence order',
-         'Stage-callback clock checked at every step of every run; convergence order measured by successive halving for autonomous and time-dependent problems, uniform and non-uniform schedules; iterator input immutability checked by a recording wrapper.',
+         'Stage-callback clock checked at every step of every run; convergence order measured by successive halving for autonomous and time-dependent problems, uniform and non-uniform schedules; iterator input immutability checked by a recording wrapper. Problems are posed on time scales 1, 20 and 300 (steps above one time unit) and 30% reuse a model object that was solved with the other integrator before.',
          'Order is an empirical slope on 7 ODE families (one-sided: at least order 0.6 / 3.0 decay between halvings); no fault dimension exists for this property and none is pretended.',
          'DESIGN.md 4/C06'),
  'C07': ('exploration', 600, 3600,
          'deterministic simulation: operation-history state machine over the real PopulationBalanceModel; transport step compared face by face with a scalar upwind reference',
-         'Seeded search over operation histories and step inputs (growth fields, nucleation terms, step factors, Euler/RK4 calling pattern); every transport step checked against a scalar reference (upwind faces, sum rule, nucleation class, per-face limiter, step limit, non-negativity of limit-obeying classes).',
+         'Seeded search over operation histories and step inputs (growth fields, nucleation terms, step factors, Euler/RK4 calling pattern); every transport step checked against a scalar reference (upwind faces, sum rule, nucleation class, per-face limiter, step limit, non-negativity of limit-obeying classes). Rate functions are also called with trial distributions that are not the stored one.',
          'Admissible PBM configurations only; corrected face fluxes read from the anchored attribute _netFlux; inputs are a seeded sample, not a sweep. Known finding: nucleus above the grid is clamped into the last class.',
          'DESIGN.md 4/C07'),
  'C08': ('exploration', 600, 3600,
@@ -64,22 +64,22 @@ CHECKS = {
          'DESIGN.md 4/C13'),
  'C12': ('exploration', 1200, 7200,
          'deterministic simulation: real KWN model under seeded schedules with a growth-sign monitor at every accepted step (growth, class boundaries and critical radius read at the same instant); static thermodynamic relations evaluated at states a real Al-Zr trajectory visits',
-         'In-run clause checked at every step of every run (stub and real backends, binary and multicomponent, all site types/shapes); static clauses (dG(x_alpha(g)) = g, monotonicity, sentinel monotonicity, sign change at the solvus, agreement of the four methods) at visited states of real Al-Zr runs and at seeded states of Al-Cr / AL13CR2 (formula unit != mole of atoms).',
+         'In-run clause checked at every step of every run (stub and real backends, binary and multicomponent, all site types/shapes); static clauses (dG(x_alpha(g)) = g, monotonicity, sentinel monotonicity, sign change at the solvus, agreement of the four methods) at visited states of real Al-Zr runs and at seeded states of Al-Cr / AL13CR2 (formula unit != mole of atoms). Runs with boundary sites include the reconfigure history (same model reset, another energy, solved again).',
          'Static clauses are input sampling along trajectories, not a sweep. Band around R* excluded (stub 1e-6; real 2% + offset). Known finding: curvature driving-force method at large supersaturation.',
          'DESIGN.md 4/C12'),
  'C14': ('exploration', 1200, 7200,
          'deterministic simulation: setter-history state machine on nucleation parameter objects compared with fresh twins; precipitation worlds with a tap on _calcNucleationSites and per-step checks; Clemm-Fisher / CNT reference formulas as oracles at visited states',
-         'Cache coherence of geometric factors after any setter order (bitwise vs fresh object), site budget in runs (non-negative, bounded, consumed by occupancy), per-step sanity of Rcrit/Gcrit/impingement/rate, reference formulas and identities at every visited state.',
+         'Cache coherence of geometric factors after any setter order (bitwise vs fresh object), site budget in runs (non-negative, bounded, consumed by occupancy), per-step sanity of Rcrit/Gcrit/impingement/rate, reference formulas and identities at every visited state. Description functions are read with arrays and scalars; multi-phase runs with every phase on one site type carry the exact site reference.',
          'k values and driving forces are those visited (sample, not sweep); N0 is configuration; the dislocation site type is exempt from N0-based clauses (kawin resolves it through the bulk branch: recorded as an observation in DESIGN.md). Known finding: negative barrier when R* is clamped on grain-boundary sites.',
          'DESIGN.md 4/C14'),
  'C17': ('exploration', 1200, 7200,
          'deterministic simulation of evaluation histories of computeHomogenizationFunction on the real two-phase Fe-Cr-Ni database with a shared hash table (order, repeats, cache on/off/cleared, rule and post-process mode changing between evaluations); by-name reference post-processing; classical bound formulas on synthetic sets',
-         'Every evaluation of every history is compared with a by-phase-name reference applied to a cache-less fresh evaluation, repeated for idempotence, and the cached per-phase arrays are compared before/after; synthetic fully-defined sets check min/max, W_low<=HS_low<=HS_up<=W_up, permutation invariance, single-phase limit, labyrinth clauses and the rule formulas.',
+         'Every evaluation of every history is compared with a by-phase-name reference applied to a cache-less fresh evaluation, repeated for idempotence, and the cached per-phase arrays are compared before/after; synthetic fully-defined sets check min/max, W_low<=HS_low<=HS_up<=W_up, permutation invariance, single-phase limit, labyrinth clauses and the rule formulas. Exclude lists with unstable / unknown names and a BCC-only mobility variant are part of the histories.',
          'Bounds asserted for fully defined sets only (1e-6 relative, up to six decades); predefined(name) compared only where the named phase is stable; FCC-only mobility produced by removing the BCC callable.',
          'DESIGN.md 4/C17'),
  'C18': ('exploration', 1200, 7200,
          'deterministic simulation of two coupled clocks: host precipitation model with StrengthModel and GrainGrowthModel (nested solver run per host step) attached; alignment/clock invariants after every host step; stand-alone grain-growth histories with taps on normalisation and drag; strength formulas as oracles at visited and generated points',
-         'Coupled: one strength entry per host step and grain clock == host clock after every host step over 1-4 solve calls and both iterators. Grain growth: volume 1 after every step, bounded pre-normalisation drift, monotone mean size without pinning, drag never reverses/accelerates, frozen structure above the freezing level. Strength: non-negativity incl. r < ri and zeros, min rule, total >= parts and monotone, edge/screw limits.',
+         'Coupled: one strength entry per host step and grain clock == host clock after every host step over 1-4 solve calls and both iterators. Grain growth: volume 1 after every step, bounded pre-normalisation drift, monotone mean size without pinning, drag never reverses/accelerates, frozen structure above the freezing level. Strength: non-negativity incl. r < ri and zeros, min rule, total >= parts and monotone, edge/screw limits. Superposition exponents, alpha 0.5-3 with the documented drag law, and reset-and-solve-again histories of the grain model are included.',
          'Strength formulas and drag levels are sampled, not swept; host model uses the analytic backend.',
          'DESIGN.md 4/C18'),
  'C19': ('exploration', 1500, 7200,
@@ -89,7 +89,7 @@ CHECKS = {
          'DESIGN.md 4/C19'),
  'C20': ('fault_enumeration', 1500, 7200,
          'deterministic simulation with crash injection: op histories solve/save/crash/load on precipitation and diffusion models with every save point between solve calls enumerated; surrogate train/save/load round trips on the real databases',
-         'For every generated history every point between solve calls (and after the last) is a save point: save, drop all state, fresh model of the same configuration loads, bitwise comparison of all recorded histories, current state, size distributions and recorded PSDs. Surrogates: pass-through of every untrained getter (bitwise), reproduction of training data, JSON round trip.',
+         'For every generated history every point between solve calls (and after the last) is a save point: save, drop all state, fresh model of the same configuration loads, bitwise comparison of all recorded histories, current state, size distributions and recorded PSDs. Surrogates: pass-through of every untrained getter (bitwise), reproduction of training data, JSON round trip. A two-precipitate Al-Mg-Si surrogate world checks every trained phase; an informational probe counts how often a restored model continues bit-identically.',
          'Crash = loss of all in-memory state between solve calls; torn/truncated files are not part of C20. Surrogate checks use the real Al-Zr and Ni-Cr-Al databases with small training grids.',
          'DESIGN.md 4/C20'),
 }
